@@ -8,8 +8,20 @@
  *   7 file created with a small DD-block size (Hopen(.., ndds) before SDstart)     8 SDsetaccesstype(DFACC_PARALLEL/SERIAL)
  * After every read the bytes of every configuration must equal the baseline's (key layout-mismatch:<config>) and, for cells whose
  * value is defined (written, or fill value set), the shadow array (layout-shadow:<config>).  A call that succeeds on the baseline
- * must succeed on every configuration (layout-call-failed:<config>:<api>).  For chunked configurations SDreadchunk of a random chunk
- * must agree with the hyperslab view of that region (layout-chunk-vs-slab).
+ * must succeed on every configuration (layout-call-failed:<config>:<api>).
+ * Number types: every base type the SD interface stores (char8, uchar8, int8 .. uint32, float32, float64) in the standard, the
+ * native (DFNT_NATIVE) and the little-endian (DFNT_LITEND) flavour; the 64-bit integer types are offered too (SDcreate refuses them
+ * today: STAT nt_refused).  With and without a user fill value.  Never-written cells are compared like any other cell, and when no
+ * fill value was set they must carry the documented default of the BASE type (0 for the character types, -127, -32767, -2147483647,
+ * 9.9692099683868690e+36) whatever the flavour and the configuration (layout-default-fill:<config>; the values are typed here, not
+ * taken from the library's macros).
+ * Whole-chunk access: SDreadchunk of a chunk (random chunks during the history, EVERY chunk after the final reopen, which is
+ * read-only half of the time) must succeed also for a chunk that was never written (layout-call-failed:<config>:SDreadchunk) and every
+ * in-bounds cell of it must equal what the contiguous baseline returns for that cell (layout-readchunk-mismatch:<config>), what the
+ * same data set returns by hyperslab (layout-chunk-vs-slab) and the shadow / the default fill value; the cells of an edge chunk that
+ * lie outside the extent must be the fill value, or what the last SDwritechunk of that chunk put there (layout-chunk-ghost:<config>).
+ * SDwritechunk is part of the history: the chunked configuration writes a whole chunk, every other configuration (incl. the other
+ * chunked one, whose shape differs) writes the in-bounds part of the same region by hyperslab.
  * Coders only support rewriting a whole element, so configurations 2 and 4 take part only in histories made of whole-array writes.
  * No model is involved (no T lines): the array model side of C04 is H4/Props/C04Chunk.lean + engine chunk; this engine is the
  * cross-configuration comparison the property text asks for.
@@ -36,10 +48,29 @@ static int   rank, sz, nelem;
 static int32 dims[MAXR], nt;
 static uint8_t shadow[MAXB], known[MAXB], written[MAXB], fillv[8];
 static int   hasfill;
+static uint8_t deffill[8]; static int havedef;   /* default fill value of the base type in memory representation, when documented */
+#define GMAX 2048                                /* cells of the padded (whole-chunk) space of a chunked configuration */
+static uint8_t gsh[2][GMAX * 8], gwr[2][GMAX];   /* what SDwritechunk last put into each chunk element, per chunked configuration (1 -> 0, 3 -> 1) */
+static int   gtrack[2];
+
+/* the default fill values of the SD interface (User's Guide, "fill values": netCDF defaults), typed here independently of mfhdf.h */
+static int default_fill(int32 t, uint8_t *out)
+{
+    switch (t & 0xff) {
+        case DFNT_CHAR8: case DFNT_UCHAR8: { uint8_t v = 0; memcpy(out, &v, 1); return 1; }
+        case DFNT_INT8: case DFNT_UINT8: { int8_t v = -127; memcpy(out, &v, 1); return 1; }
+        case DFNT_INT16: case DFNT_UINT16: { int16_t v = -32767; memcpy(out, &v, 2); return 1; }
+        case DFNT_INT32: case DFNT_UINT32: { int32_t v = -2147483647; memcpy(out, &v, 4); return 1; }
+        case DFNT_FLOAT32: { float v = 9.9692099683868690e+36F; memcpy(out, &v, 4); return 1; }
+        case DFNT_FLOAT64: { double v = 9.9692099683868690e+36; memcpy(out, &v, 8); return 1; }
+        default: return 0;
+    }
+}
 static char  dirA[600], dirB[600], dirC[600];
 
 static int idx_of(const int32 *c) { int i = 0; for (int d = 0; d < rank; d++) i = i * dims[d] + c[d]; return i; }
 
+static int open_ro; /* the reopen in progress is read-only */
 static int open_cfg(int k, int create)
 {
     Cfg *c = &cf[k];
@@ -48,8 +79,8 @@ static int open_cfg(int k, int create)
         else { char list[2000]; snprintf(list, sizeof list, "%s|%s|%s", dirA, dirB, dirC); HXsetcreatedir(NULL); HXsetdir(hk_chance(70) ? list : dirB); }
     }
     if (create && k == 7) { int32 f = Hopen(c->path, DFACC_CREATE, (int16)hk_range(1, 6)); if (f == FAIL) return -1; Hclose(f); c->sd = SDstart(c->path, DFACC_RDWR); }
-    else c->sd = SDstart(c->path, create ? DFACC_CREATE : DFACC_RDWR);
-    if (c->sd == FAIL) { hk_fail("layout-call-failed", "%s SDstart(%s)", CN[k], create ? "create" : "rdwr"); return -1; }
+    else c->sd = SDstart(c->path, create ? DFACC_CREATE : open_ro ? DFACC_READ : DFACC_RDWR);
+    if (c->sd == FAIL) { hk_fail("layout-call-failed", "%s SDstart(%s)", CN[k], create ? "create" : open_ro ? "read" : "rdwr"); return -1; }
     if (!create) {
         c->sds = SDselect(c->sd, 0);
         if (c->sds == FAIL) { hk_fail("layout-call-failed", "%s SDselect", CN[k]); return -1; }
@@ -67,7 +98,7 @@ static int create_cfg(int k, int fullonly)
     if (c->unlimited) d[0] = SD_UNLIMITED;
     c->sds = SDcreate(c->sd, "data", nt, rank, d);
     snprintf(key, sizeof key, "layout-call-failed:%s:create", CN[k]);
-    if (c->sds == FAIL) { hk_fail(key, "SDcreate"); return -1; }
+    if (c->sds == FAIL) { if (k == 0) hk_stat("nt_refused", 1); else hk_fail(key, "SDcreate"); return -1; }
     if (hasfill && SDsetfillvalue(c->sds, fillv) == FAIL) hk_fail(key, "SDsetfillvalue");
     if (k == 1 || k == 3) {
         HDF_CHUNK_DEF cd; memset(&cd, 0, sizeof cd); int32 flags = HDF_CHUNK;
@@ -126,11 +157,69 @@ static void slab_cells(const int32 *st, const int32 *str, const int32 *cnt, int 
     }
 }
 
+/* ---- whole-chunk access ---- */
+static int chunk_elems(int k) { int n = 1; for (int d = 0; d < rank; d++) n *= cf[k].cshape[d]; return n; }
+static int chunk_count(int k) { int n = 1; for (int d = 0; d < rank; d++) n *= (dims[d] + cf[k].cshape[d] - 1) / cf[k].cshape[d]; return n; }
+static int chunk_no(int k, const int32 *org) { int n = 0; for (int d = 0; d < rank; d++) n = n * ((dims[d] + cf[k].cshape[d] - 1) / cf[k].cshape[d]) + org[d]; return n; }
+static void chunk_org(int k, int no, int32 *org) { for (int d = rank - 1; d >= 0; d--) { int nch = (dims[d] + cf[k].cshape[d] - 1) / cf[k].cshape[d]; org[d] = no % nch; no /= nch; } }
+/* the part of chunk org that lies inside the extent */
+static void chunk_box(int k, const int32 *org, int32 *bst, int32 *bcnt)
+{
+    for (int d = 0; d < rank; d++) { bst[d] = org[d] * cf[k].cshape[d]; bcnt[d] = cf[k].cshape[d]; if (bst[d] + bcnt[d] > dims[d]) bcnt[d] = dims[d] - bst[d]; }
+}
+/* element e of the chunk: global cell index (or -1 when outside the extent) and its index in the in-bounds box */
+static int chunk_cell(int k, const int32 *org, const int32 *bcnt, int e, int *boxidx)
+{
+    int32 ci[MAXR], c[MAXR]; int inside = 1, j = 0;
+    for (int d = rank - 1; d >= 0; d--) { ci[d] = e % cf[k].cshape[d]; e /= cf[k].cshape[d]; }
+    for (int d = 0; d < rank; d++) { c[d] = org[d] * cf[k].cshape[d] + ci[d]; if (c[d] >= dims[d]) inside = 0; j = j * bcnt[d] + ci[d]; }
+    if (!inside) return -1;
+    *boxidx = j; return idx_of(c);
+}
+
+/* SDreadchunk of one chunk of chunked configuration k against the baseline, the hyperslab view of k itself, the shadow and the fill value */
+static void check_readchunk(int k, const int32 *org, const char *when)
+{
+    static uint8_t cb[MAXB], b0[MAXB], b1[MAXB]; char key[80];
+    int32 bst[MAXR], bcnt[MAXR]; int cn = chunk_elems(k), g2 = k == 1 ? 0 : 1, no = chunk_no(k, org);
+    if (cn * sz > MAXB) return;
+    memset(cb, 0xA5, (size_t)(cn * sz));
+    if (SDreadchunk(cf[k].sds, (int32 *)org, cb) == FAIL) { /* a chunk that was never written has no storage, but it has a value: the fill value */
+        snprintf(key, sizeof key, "layout-call-failed:%s:SDreadchunk", CN[k]); hk_fail(key, "%s: chunk %d cannot be read (rank %d nt %d)", when, no, rank, (int)nt); return; }
+    chunk_box(k, org, bst, bcnt);
+    memset(b0, 0xA5, sizeof b0); memset(b1, 0xA5, sizeof b1);
+    int r0 = SDreaddata(cf[0].sds, bst, NULL, bcnt, b0), r1 = SDreaddata(cf[k].sds, bst, NULL, bcnt, b1);
+    if (r0 == FAIL) { hk_fail("layout-call-failed:contig:SDreaddata", "%s: region of chunk %d", when, no); return; }
+    if (r1 == FAIL) { snprintf(key, sizeof key, "layout-call-failed:%s:SDreaddata", CN[k]); hk_fail(key, "%s: region of chunk %d", when, no); return; }
+    for (int e = 0; e < cn; e++) {
+        int j = 0, g = chunk_cell(k, org, bcnt, e, &j); const uint8_t *v = cb + e * sz;
+        if (g >= 0) {
+            if (memcmp(v, b0 + j * sz, (size_t)sz)) { snprintf(key, sizeof key, "layout-readchunk-mismatch:%s", CN[k]);
+                hk_fail(key, "%s: SDreadchunk cell %d (chunk %d element %d, %s) differs from what the contiguous baseline reads (rank %d nt %d fill %d)", when, g, no, e, written[g] ? "written" : "never written", rank, (int)nt, hasfill); break; }
+            if (memcmp(v, b1 + j * sz, (size_t)sz)) { hk_fail("layout-chunk-vs-slab", "%s: %s: SDreadchunk cell %d (chunk %d element %d) differs from the hyperslab view of the same data set", when, CN[k], g, no, e); break; }
+            if (known[g] && memcmp(v, shadow + g * sz, (size_t)sz)) { hk_fail("layout-chunk-vs-slab", "%s: %s: SDreadchunk cell %d (chunk element %d) is not the last written value / fill value", when, CN[k], g, e); break; }
+            if (!known[g] && havedef && memcmp(v, deffill, (size_t)sz)) { snprintf(key, sizeof key, "layout-default-fill:%s", CN[k]);
+                hk_fail(key, "%s: SDreadchunk: never-written cell %d is not the default fill value of number type %d", when, g, (int)nt); break; }
+        }
+        else if (gtrack[g2]) { /* outside the extent: only whole-chunk access sees these cells */
+            const uint8_t *want = gwr[g2][no * cn + e] ? gsh[g2] + (no * cn + e) * sz : hasfill ? fillv : havedef ? deffill : NULL;
+            if (want && memcmp(v, want, (size_t)sz)) { snprintf(key, sizeof key, "layout-chunk-ghost:%s", CN[k]);
+                hk_fail(key, "%s: chunk %d element %d (outside the extent) is not %s (rank %d nt %d)", when, no, e, gwr[g2][no * cn + e] ? "what SDwritechunk stored" : "the fill value", rank, (int)nt); break; }
+        }
+    }
+    hk_stat("readchunks", 1);
+}
+
 static void run_case(int kcase)
 {
-    static const int32 NTS[] = {DFNT_INT8, DFNT_UINT8, DFNT_INT16, DFNT_UINT16, DFNT_INT32, DFNT_UINT32, DFNT_FLOAT32, DFNT_FLOAT64};
+    static const int32 NTS[] = {DFNT_CHAR8, DFNT_UCHAR8, DFNT_INT8, DFNT_UINT8, DFNT_INT16, DFNT_UINT16, DFNT_INT32, DFNT_UINT32, DFNT_FLOAT32, DFNT_FLOAT64};
+    static const int32 NTS64[] = {DFNT_INT64, DFNT_UINT64};
+    static const int32 FLAV[] = {0, 0, 0, DFNT_NATIVE, DFNT_LITEND};
     char sub[700];
-    rank = (int)hk_range(1, MAXR); nt = HK_PICK(NTS); sz = DFKNTsize(nt); nelem = 1;
+    rank = (int)hk_range(1, MAXR); nt = hk_chance(3) ? HK_PICK(NTS64) : HK_PICK(NTS); nt |= HK_PICK(FLAV);
+    sz = DFKNTsize((nt | DFNT_NATIVE) & ~DFNT_LITEND); nelem = 1; /* size of one element in memory */
+    if (sz <= 0 || sz > 8) { hk_stat("nt_refused", 1); return; }
+    havedef = default_fill(nt, deffill); memset(gwr, 0, sizeof gwr); gtrack[0] = gtrack[1] = 0; open_ro = 0;
     for (int d = 0; d < rank; d++) { dims[d] = (int32)hk_range(1, rank == 1 ? 24 : rank == 2 ? 8 : 5); nelem *= dims[d]; }
     hasfill = hk_chance(70); for (int i = 0; i < 8; i++) fillv[i] = hk_byte();
     int fullonly = hk_chance(30);  /* history of whole-array writes: the coder configurations take part */
@@ -150,13 +239,39 @@ static void run_case(int kcase)
         if (k != 0 && c->on && !hk_chance(75)) c->on = 0;                           /* a random subset per case keeps cases short */
         if (c->on && create_cfg(k, fullonly) < 0) { c->on = 0; if (c->sd != FAIL) { SDend(c->sd); c->sd = FAIL; } }
         if (c->on) hk_stat(CN[k], 1);
+        if (c->on && c->chunked) gtrack[k == 1 ? 0 : 1] = chunk_count(k) * chunk_elems(k) <= GMAX;
+        if (k == 0 && !c->on) break; /* the number type is not one the SD interface stores: nothing to compare */
     }
     if (!cf[0].on) return;
+    { char st[40]; snprintf(st, sizeof st, "nt_%s%s", (nt & DFNT_NATIVE) ? "native_" : (nt & DFNT_LITEND) ? "litend_" : "", (nt & 0xff) == DFNT_CHAR8 || (nt & 0xff) == DFNT_UCHAR8 ? "char" : (nt & 0xff) == DFNT_FLOAT32 || (nt & 0xff) == DFNT_FLOAT64 ? "float" : "int"); hk_stat(st, 1); }
     int nops = (int)hk_range(2, 14);
     static uint8_t wbuf[MAXB], rb[NCFG][MAXB]; static int cells[MAXB / 1];
     for (int op = 0; op < nops; op++) {
         int32 st[MAXR], str[MAXR], cnt[MAXR];
         int usestride;
+        /* whole-chunk write on one chunked configuration = hyperslab write of the in-bounds part of that region everywhere else */
+        if (!fullonly && !(op == 0 && firstfull) && (cf[1].on || cf[3].on) && hk_chance(15)) {
+            int kk = cf[1].on && cf[3].on ? (hk_chance(50) ? 1 : 3) : cf[1].on ? 1 : 3, g2 = kk == 1 ? 0 : 1, cn = chunk_elems(kk);
+            int32 org[MAXR], bst[MAXR], bcnt[MAXR]; static uint8_t cbuf[MAXB];
+            if (cn * sz <= MAXB) {
+                int no = (int)hk_range(0, chunk_count(kk) - 1); chunk_org(kk, no, org); chunk_box(kk, org, bst, bcnt);
+                for (int i = 0; i < cn * sz; i++) cbuf[i] = hk_byte();
+                int nb = 0;
+                for (int e = 0; e < cn; e++) { int j = 0, g = chunk_cell(kk, org, bcnt, e, &j); if (g >= 0) { memcpy(wbuf + j * sz, cbuf + e * sz, (size_t)sz); cells[j] = g; nb++; } }
+                int r0 = SDwritedata(cf[0].sds, bst, NULL, bcnt, wbuf);
+                if (r0 == FAIL) { hk_fail("layout-call-failed:contig:SDwritedata", "valid write refused on the baseline"); break; }
+                for (int k = 1; k < NCFG; k++) if (cf[k].on) {
+                    int r = k == kk ? SDwritechunk(cf[k].sds, org, cbuf) : SDwritedata(cf[k].sds, bst, NULL, bcnt, wbuf);
+                    if (r != r0) { char key[80]; snprintf(key, sizeof key, "layout-call-failed:%s:%s", CN[k], k == kk ? "SDwritechunk" : "SDwritedata");
+                        hk_fail(key, "returns %d, baseline %d (region of chunk %d of %s, rank %d nt %d op %d)", r, r0, no, CN[kk], rank, (int)nt, op); cf[k].on = 0; close_cfg(k); }
+                }
+                for (int i = 0; i < nb; i++) { memcpy(shadow + cells[i] * sz, wbuf + i * sz, (size_t)sz); known[cells[i]] = 1; written[cells[i]] = 1; }
+                if (gtrack[g2]) for (int e = 0; e < cn; e++) { memcpy(gsh[g2] + (no * cn + e) * sz, cbuf + e * sz, (size_t)sz); gwr[g2][no * cn + e] = 1; }
+                hk_stat("writechunks", 1);
+                if (cf[kk].on && hk_chance(50)) check_readchunk(kk, org, "after SDwritechunk");
+                continue;
+            }
+        }
         if (op == 0 ? firstfull : 0) gen_slab(st, str, cnt, 1);
         else gen_slab(st, str, cnt, fullonly && hk_chance(100));
         usestride = 0; for (int d = 0; d < rank; d++) if (str[d] != 1) usestride = 1;
@@ -194,26 +309,16 @@ static void run_case(int kcase)
                         hk_fail(key, "cell %d differs from the contiguous baseline (rank %d nt %d op %d%s)", cells[i], rank, (int)nt, op, usestride ? " strided" : ""); break; }
                     if (known[cells[i]] && memcmp(rb[k] + i * sz, shadow + cells[i] * sz, (size_t)sz)) { char key[80]; snprintf(key, sizeof key, "layout-shadow:%s", CN[k]);
                         hk_fail(key, "cell %d is not the last written value / fill value (rank %d nt %d op %d)", cells[i], rank, (int)nt, op); break; }
+                    if (!known[cells[i]] && havedef && memcmp(rb[k] + i * sz, deffill, (size_t)sz)) { char key[80]; snprintf(key, sizeof key, "layout-default-fill:%s", CN[k]);
+                        hk_fail(key, "never-written cell %d is not the default fill value of number type %d (rank %d op %d)", cells[i], (int)nt, rank, op); break; }
                 }
             }
             hk_stat("reads", 1);
         }
-        /* whole-chunk read against the hyperslab view */
+        /* whole-chunk read against the baseline, the hyperslab view, the shadow and the fill value */
         for (int k = 1; k <= 3; k += 2) if (cf[k].on && cf[k].chunked && hk_chance(30)) {
-            int32 org[MAXR], cst[MAXR], ccnt[MAXR]; int cn = 1, inside = 1;
-            for (int d = 0; d < rank; d++) { int nch = (dims[d] + cf[k].cshape[d] - 1) / cf[k].cshape[d]; org[d] = (int32)hk_range(0, nch - 1); cn *= cf[k].cshape[d]; }
-            if (cn * sz > MAXB) continue;
-            static uint8_t cb[MAXB];
-            if (SDreadchunk(cf[k].sds, org, cb) == FAIL) { hk_stat("readchunk_failed", 1); continue; } /* a chunk never written may have no storage */
-            /* compare the in-bounds cells of the chunk with the shadow */
-            int32 ci[MAXR] = {0, 0, 0};
-            for (int e = 0; e < cn; e++) {
-                inside = 1; for (int d = 0; d < rank; d++) { cst[d] = org[d] * cf[k].cshape[d] + ci[d]; if (cst[d] >= dims[d]) inside = 0; }
-                if (inside) { int g = idx_of(cst); if (known[g] && memcmp(cb + e * sz, shadow + g * sz, (size_t)sz)) {
-                    hk_fail("layout-chunk-vs-slab", "%s: SDreadchunk cell %d (chunk element %d) differs from the hyperslab view", CN[k], g, e); break; } }
-                for (int d = rank - 1; d >= 0; d--) { if (++ci[d] < cf[k].cshape[d]) break; ci[d] = 0; }
-            }
-            (void)ccnt; hk_stat("readchunks", 1);
+            int32 org[MAXR]; chunk_org(k, (int)hk_range(0, chunk_count(k) - 1), org);
+            check_readchunk(k, org, "in session");
         }
         /* close and reopen everything now and then */
         if (hk_chance(25)) { for (int k = 0; k < NCFG; k++) if (cf[k].on) { close_cfg(k); if (open_cfg(k, 0) < 0) { cf[k].on = 0; if (cf[k].sd != FAIL) { SDend(cf[k].sd); cf[k].sd = FAIL; } } } hk_stat("reopens", 1); }
@@ -221,12 +326,14 @@ static void run_case(int kcase)
     /* final: reopen read-only-ish and compare the whole array */
     {
         int32 st[MAXR] = {0, 0, 0}, cnt[MAXR]; memcpy(cnt, dims, sizeof cnt);
+        open_ro = hk_chance(50);
         for (int k = 0; k < NCFG; k++) if (cf[k].on) { close_cfg(k); if (open_cfg(k, 0) < 0) { cf[k].on = 0; if (cf[k].sd != FAIL) { SDend(cf[k].sd); cf[k].sd = FAIL; } } }
-        int r0 = -2;
+        int r0 = -2; int32 gnt0 = 0;
         for (int k = 0; k < NCFG; k++) if (cf[k].on) {
             memset(rb[k], 0xA5, (size_t)(nelem * sz));
             int32 got[MAXR], gr = 0, gnt = 0, na = 0; char nm[80];
-            if (SDgetinfo(cf[k].sds, nm, &gr, got, &gnt, &na) == FAIL || gr != rank || gnt != nt) { char key[80]; snprintf(key, sizeof key, "layout-info:%s", CN[k]); hk_fail(key, "SDgetinfo rank %d nt %d", (int)gr, (int)gnt); }
+            /* the native flavour is reported after reopen as the flavour of the creating host (little-endian, plain for the character types) under every configuration alike */
+            if (SDgetinfo(cf[k].sds, nm, &gr, got, &gnt, &na) == FAIL || gr != rank || (gnt & 0xff) != (nt & 0xff) || (!(nt & DFNT_NATIVE) && gnt != nt) || (k == 0 ? (gnt0 = gnt, 0) : gnt != gnt0)) { char key[80]; snprintf(key, sizeof key, "layout-info:%s", CN[k]); hk_fail(key, "SDgetinfo rank %d nt %d, created with rank %d nt %d", (int)gr, (int)gnt, rank, (int)nt); }
             int full = 1; if (cf[k].unlimited && got[0] != dims[0]) full = 0;
             if (!full) { char key[80]; snprintf(key, sizeof key, "layout-info:%s", CN[k]); hk_fail(key, "extent %d after a whole-array write, expected %d", (int)got[0], (int)dims[0]); continue; }
             int r = SDreaddata(cf[k].sds, st, NULL, cnt, rb[k]);
@@ -239,9 +346,17 @@ static void run_case(int kcase)
                 if (k == 5 && !written[e]) { if (memcmp(rb[k] + e * sz, rb[0] + e * sz, (size_t)sz)) { hk_fail("layout-external-unfilled", "after reopen: never-written cell %d is not the fill value the baseline returns", e); break; } continue; }
                 if (k != 0 && memcmp(rb[k] + e * sz, rb[0] + e * sz, (size_t)sz)) { char key[80]; snprintf(key, sizeof key, "layout-mismatch:%s", CN[k]); hk_fail(key, "after reopen: cell %d differs from the baseline (rank %d nt %d)", e, rank, (int)nt); break; }
                 if (known[e] && memcmp(rb[k] + e * sz, shadow + e * sz, (size_t)sz)) { char key[80]; snprintf(key, sizeof key, "layout-shadow:%s", CN[k]); hk_fail(key, "after reopen: cell %d is not the last written value / fill value", e); break; }
+                if (!known[e] && havedef && memcmp(rb[k] + e * sz, deffill, (size_t)sz)) { char key[80]; snprintf(key, sizeof key, "layout-default-fill:%s", CN[k]); hk_fail(key, "after reopen: never-written cell %d is not the default fill value of number type %d", e, (int)nt); break; }
             }
         }
+        /* every chunk of the chunked configurations, written or not, by whole-chunk read */
+        if (cf[0].on && r0 != FAIL) for (int k = 1; k <= 3; k += 2) if (cf[k].on && cf[k].chunked) {
+            int nc = chunk_count(k), first = nc > 48 ? (int)hk_range(0, nc - 48) : 0; int32 org[MAXR];
+            long nf = hk_nfail;
+            for (int no = first; no < nc && no < first + 48 && hk_nfail == nf; no++) { chunk_org(k, no, org); check_readchunk(k, org, open_ro ? "after read-only reopen" : "after reopen"); }
+        }
         for (int k = 0; k < NCFG; k++) if (cf[k].on) close_cfg(k);
+        open_ro = 0;
     }
     HXsetdir(NULL); HXsetcreatedir(NULL);
     if (kcase < 3) printf("SAMPLE layout rank=%d nt=%d nelem=%d fullonly=%d hasfill=%d\n", rank, (int)nt, nelem, fullonly, hasfill);
